@@ -138,6 +138,115 @@ class RepoIndex:
                 self.report.consulted(rel, text)
         for m in self.modules.values():
             self._index_module(m)
+        self._specialise_new_options()
+
+    def _specialise_new_options(self) -> None:
+        """An *optional* parameter that a function of the pinned tree did not have was added
+        later as an option (`pickndrop(.., object_type=None)`, `raytracing(.., ray_method=
+        'fancy')`).  When nothing in the repository passes it -- no call site, no shipped
+        configuration -- every execution the properties speak about runs with its default, so
+        the function is read with the parameter replaced by its constant default.  A faulty
+        default path stays visible; the behaviour under the new option is the option's own
+        specification, not the property's."""
+        from .pinned_names import PARAMS
+        self.specialised: Dict[str, Dict[str, str]] = {}
+        cand = []
+        for m in self.modules.values():
+            if not m.relpath.startswith(PKG + '/'):
+                continue
+            fs = [(f.name, f) for f in m.functions.values()]
+            for c in m.classes.values():
+                fs += [(f'{c.name}.{n}', f) for n, f in c.methods.items()]
+            for short, f in fs:
+                old = PARAMS.get(f'{m.relpath}:{short}')
+                if old is None:
+                    continue
+                dflt = f.param_defaults()
+                for p_, d in dflt.items():
+                    if p_ not in old and isinstance(d, ast.Constant) and \
+                            not isinstance(d.value, (bytes, type(Ellipsis))):
+                        cand.append((f, p_, d))
+        if not cand:
+            return
+        passed = set()            # (callee, keyword): callee a Func id or a bare method name
+        for m in self.modules.values():
+            for n in ast.walk(m.tree):
+                if not isinstance(n, ast.Call):
+                    continue
+                tgt = [n.func]
+                if src(n.func).split('.')[-1] == 'partial' and n.args:
+                    tgt.append(n.args[0])
+                for t_ in tgt:
+                    r = self.resolve_callee(m, t_) if isinstance(t_, (ast.Name, ast.Attribute)) \
+                        else None
+                    if isinstance(r, Func):
+                        keys = [id(r)]
+                    elif isinstance(t_, ast.Attribute):
+                        keys = ['.' + t_.attr]
+                    elif isinstance(t_, ast.Name) and r is None:
+                        keys = ['.' + t_.id]      # a local / parameter holding a callable
+                    else:
+                        keys = []
+                    for key in keys:
+                        passed.update((key, k.arg) for k in n.keywords if k.arg)
+                        if any(k.arg is None for k in n.keywords):
+                            passed.add((key, '**'))
+        yaml_keys = set()         # (section word, component name, key) of shipped configurations
+        from . import yamlmini
+
+        def visit(v, section):
+            if isinstance(v, dict):
+                if isinstance(v.get('name'), str):
+                    yaml_keys.update((section, v['name'], k) for k in v)
+                for k, x in v.items():
+                    visit(x, k if isinstance(x, (dict, list)) else section)
+            elif isinstance(v, list):
+                for x in v:
+                    visit(x, section)
+        for pat in ('yaml/*.yaml', f'{PKG}/registered_envs/*.yaml', 'examples/*.yaml'):
+            for path in glob.glob(os.path.join(self.repo, pat)):
+                try:
+                    visit(yamlmini.parse(open(path, encoding='utf-8').read(), path), '')
+                except Exception:       # noqa: BLE001 - unreadable file: be conservative
+                    yaml_keys.add(('*', '*', '*'))
+        for f, p_, d in cand:
+            role = os.path.basename(f.module.relpath).split('_')[0]
+            by_name = '.' + f.name
+            if (id(f), p_) in passed or (id(f), '**') in passed or \
+                    (f.cls is not None and ((by_name, p_) in passed or (by_name, '**') in passed)) \
+                    or ('*', '*', '*') in yaml_keys or \
+                    any(sec_ and role in sec_ and nm == f.name and k == p_
+                        for sec_, nm, k in yaml_keys):
+                continue
+            stored = any(isinstance(n, ast.Name) and n.id == p_ and
+                         isinstance(n.ctx, (ast.Store, ast.Del)) for n in ast.walk(f.node))
+            pos = [a.arg for a in f.node.args.posonlyargs + f.node.args.args]
+            if stored or (p_ in pos and pos.index(p_) < len(pos) - 1 and False):
+                continue
+            if p_ in pos:
+                # a positional option could be passed positionally: only the last positional
+                # parameter of a function nobody calls with that many arguments
+                n_before = pos.index(p_) - (1 if f.cls is not None else 0)
+                name = f.name
+                if any(isinstance(n, ast.Call) and len(n.args) > n_before and
+                       ((isinstance(n.func, ast.Name) and n.func.id == name) or
+                        (isinstance(n.func, ast.Attribute) and n.func.attr == name))
+                       for m in self.modules.values() for n in ast.walk(m.tree)):
+                    continue
+
+            class T(ast.NodeTransformer):
+                def visit_Name(self, n: ast.Name):
+                    if n.id == p_ and isinstance(n.ctx, ast.Load):
+                        return ast.copy_location(ast.Constant(d.value), n)
+                    return n
+
+                def visit_Lambda(self, n: ast.Lambda):
+                    if p_ in {a.arg for a in n.args.args + n.args.kwonlyargs}:
+                        return n
+                    return self.generic_visit(n)
+            f.node.body = [T().visit(st) for st in f.node.body]
+            ast.fix_missing_locations(f.node)
+            self.specialised.setdefault(f.qualname, {})[p_] = repr(d.value)
 
     def _index_module(self, m: Module) -> None:
         pkg_parts = m.name.split('.')
